@@ -168,6 +168,8 @@ def _forward_ref(repo, ob, failure):
     cases = [
         # (elements in document order A, same elements in order B)
         (['<rect id="d" xy="#a|h" width="4" height="4"/>', '<rect surround="#d"/>', '<rect id="a" xy="10" wh="4"/>'], [2, 0, 1]),
+        (['<rect id="b" x="0" y="0" width="10" height="10" dx="{{#z~w}}"/>', '<rect id="n" xy="#b|h 2" wh="2"/>', '<rect id="z" xy="50 50" wh="7"/>'], [2, 0, 1]),
+        (['<circle id="b" cx="5" cy="5" r="5" dy="{{#z~h}}"/>', '<rect id="n" xy="#b|v 2" wh="2"/>', '<rect id="z" xy="50 50" wh="7"/>'], [2, 0, 1]),
         (['<circle id="d" cxy="#a|v" r="3"/>', '<rect xy="#d|h" wh="2"/>', '<rect id="a" xy="10" wh="4"/>'], [2, 0, 1]),
         (['<line id="d" xy1="#a@br" x2="30" y2="30"/>', '<rect surround="#d"/>', '<rect id="a" xy="10" wh="4"/>'], [2, 0, 1]),
         (['<rect id="d" xy="#a|h" wh="4"/>', '<rect xy="#d|v" wh="2"/>', '<rect id="a" xy="10" wh="4"/>'], [2, 0, 1]),
